@@ -141,3 +141,8 @@ func HavocExcept(keep ...string) {}
 // Visited: the range statement currently running over map m has already
 // visited key k (ghost state; for loop invariants of range-over-map loops).
 func Visited[K comparable, V any](m map[K]V, k K) bool { return false }
+
+// HandlerName: the name of the method the function value f is bound to (a
+// method value such as ctl.handlePing), looking through wrappers that capture
+// one function (msg.AsyncHandler); "" otherwise.
+func HandlerName(f any) string { return "" }
